@@ -62,7 +62,9 @@ var freeROMs = []string{
 
 func randomWorkload(r *engine.Rand) workload {
 	w := workload{Seed: r.U64(), Audio: r.Chance(1, 2), Video: r.Chance(2, 3)}
-	switch r.Intn(7) {
+	switch r.Intn(8) {
+	case 7:
+		w.Kind = "irq"
 	case 0, 1:
 		w.Kind = "rom"
 		w.ROM = engine.Pick(r, freeROMs)
@@ -99,6 +101,11 @@ func newFree(w workload, chanCap int, res *engine.Result) *machine.Machine {
 		}
 		if k == "mbc3rtc" {
 			spec.Kind = "mbc3"
+		}
+		if w.Kind == "irq" {
+			// every handler sends the low byte of its own vector to the serial port: the order in which
+			// simultaneous requests are served becomes part of the trace
+			spec.Handler, spec.HandlerTag = "f53ea5e001f1d9", true
 		}
 		img, err = cartBuild(spec)
 	}
@@ -184,6 +191,29 @@ func newFree(w workload, chanCap int, res *engine.Result) *machine.Machine {
 		rg.PC = lsCodeWRAM
 		m.CPU.VerifSetRegs(rg)
 		m.Write(0xffff, r.Byte()&0x1f)
+	case "irq":
+		// several interrupts requested at once, again and again, with the master enable set
+		code := []byte{0x31, 0xf0, 0xdf, 0x3e, 0x1f, 0xe0, 0xff, 0x3e, r.Byte() & 7, 0xe0, 0x07, 0xfb}
+		for i, n := 0, r.Range(4, 24); i < n; i++ {
+			mask := r.Byte() & 0x1f
+			if mask&(mask-1) == 0 {
+				mask |= engine.Pick(r, []uint8{0x03, 0x05, 0x14, 0x18, 0x1f})
+			}
+			code = append(code, 0x3e, mask, 0xe0, 0x0f)
+			for j, k := 0, r.Intn(12); j < k; j++ {
+				code = append(code, 0x00)
+			}
+			if r.Chance(1, 4) {
+				code = append(code, engine.Pick(r, []uint8{0xf3, 0xfb, 0xfb}))
+			}
+		}
+		code = append(code, 0xfb, 0xc3, 0x0c, 0xc0) // EI ; JP back to the first request
+		for i, b := range code {
+			m.Write(lsCodeWRAM+uint16(i), b)
+		}
+		rg := m.CPU.VerifGetRegs()
+		rg.PC = lsCodeWRAM
+		m.CPU.VerifSetRegs(rg)
 	case "rand":
 		code := r.Bytes(0x1000)
 		for i, b := range code {
